@@ -834,6 +834,23 @@ func vfSenderCase(t *testing.T, s *vfutil.Session, r *vfutil.Rand, c *vfSCase, t
 			}
 			continue
 		}
+		// C07 across a restart: the position the next start finds is the largest one stored
+		// (a smaller one makes the resumed run store positions below ones already stored)
+		_, _, wk := vfAppliedOf(c, log[:sp.k])
+		maxStored := int64(-1)
+		for _, o := range c.init {
+			if o > maxStored {
+				maxStored = o
+			}
+		}
+		for _, o := range wk {
+			if o > maxStored {
+				maxStored = o
+			}
+		}
+		if sp.off < maxStored {
+			s.Violate("C07:resume-below-stored", fmt.Sprintf("after %d requests the next start resumes at %d although %d is stored", sp.k, sp.off, maxStored), replay(map[string]interface{}{"k": sp.k, "offset": sp.off, "stored": maxStored}))
+		}
 		// commands the resume position covers
 		covered := 0
 		for _, e := range exp {
